@@ -388,9 +388,19 @@ def r4_writer(cx):
     cx.ob("R4", "R4/write_serializer", ok, ws[0], "write_serializer writes the data then, when present, the checksum")
 
 
+def r5_witness(cx):
+    """type-level: CheckReader cannot be named (hence constructed) outside the crate"""
+    import witness
+    for name, ok, detail in witness.run(["c05_check_reader_private"], repo=cx.repo):
+        cx.ob("R5", "R5/%s" % name, ok, "/verif/witness/src/lib.rs", detail)
+
+
+r5_witness.only_configs = ("lib-all3",)
+
 RULES = [
     ("R1", r1_parse_sites, 22),
     ("R2", r2_source_matrix, 8),
     ("R3", r3_the_check, 10),
     ("R4", r4_writer, 10),
+    ("R5", r5_witness, 1),
 ]
